@@ -20,9 +20,64 @@ GRAMMAR_FACTS = {
     'Guard': [([], []), (['T_GUARD', 'Expression', "';'"], ['proc_guard']), (['T_GUARD', 'Expression', 'error', "';'"], ['proc_guard']), (['T_GUARD', 'error', "';'"], [])],
     'Assign': [([], []), (['T_ASSIGN', 'ExprList', "';'"], ['proc_update']), (['T_ASSIGN', 'error', "';'"], [])],
     'Probability': [([], []), (['T_PROBABILITY', 'Expression', "';'"], ['proc_prob']), (['T_PROBABILITY', 'error', "';'"], [])],
+    # the section wrappers: every section is optional or ends at its own ';', with an error alternative that resynchronises there
+    'Sync': [([], []), (['T_SYNC', 'SyncExpr', "';'"], []), (['T_SYNC', 'error', "';'"], [])],
+    'Commit': [(['T_COMMIT', 'CStateList', "';'"], []), (['T_COMMIT', 'error', "';'"], [])],
+    'Urgent': [(['T_URGENT', 'UStateList', "';'"], []), (['T_URGENT', 'error', "';'"], [])],
+    'States': [(['T_STATE', 'StateDeclList', "';'"], []), (['T_STATE', 'error', "';'"], [])],
+    'StateDeclList': [(['StateDecl'], []), (['StateDeclList', "','", 'StateDecl'], [])],
+    'Branchpoints': [(['T_BRANCHPOINT', 'BranchpointDeclList', "';'"], []), (['T_BRANCHPOINT', 'error', "';'"], [])],
+    'BranchpointDeclList': [(['BranchpointDecl'], []), (['BranchpointDeclList', "','", 'BranchpointDecl'], [])],
+    'Transitions': [([], []), (['T_TRANS', 'TransitionList', "';'"], []), (['T_TRANS', 'error', "';'"], [])],
+    'TransitionList': [(['Transition'], []), (['TransitionList', "','", 'TransitionOpt'], [])],
+    # the old (3.x) process body: the same section order without branchpoints; invariants and guards are comma-separated conjunctions
+    'OldProcBody': [(['OldVarDeclList', 'OldStates', 'LocFlags', 'Init', 'OldTransitions'], [])],
+    'OldStates': [(['T_STATE', 'OldStateDeclList', "';'"], []), (['error', "';'"], [])],
+    'OldStateDeclList': [(['OldStateDecl'], []), (['OldStateDeclList', "','", 'OldStateDecl'], [])],
+    'OldStateDecl': [(['NonTypeId'], ['proc_location']), (['NonTypeId', "'{'", 'OldInvariant', "'}'"], ['proc_location'])],
+    'OldInvariant': [(['Expression'], []), (['Expression', 'error', "','"], []), (['OldInvariant', "','", 'Expression'], ['expr_binary'])],
+    'OldTransitions': [([], []), (['T_TRANS', 'OldTransitionList', "';'"], []), (['T_TRANS', 'error', "';'"], [])],
+    'OldTransitionList': [(['OldTransition'], []), (['OldTransitionList', "','", 'OldTransitionOpt'], [])],
+    'OldGuard': [([], []), (['T_GUARD', 'OldGuardList', "';'"], ['proc_guard']), (['T_GUARD', 'OldGuardList', 'error', "';'"], ['proc_guard'])],
+    'OldGuardList': [(['Expression'], []), (['OldGuardList', "','", 'Expression'], ['expr_binary'])],
+    'ExpRate': [(['Expression'], []), (['Expression', "':'", 'Expression'], ['expr_binary'])],
     'SyncExpr': [(['Expression'], ['proc_sync']), (['Expression', 'T_EXCLAM'], ['proc_sync']), (['Expression', 'error', 'T_EXCLAM'], ['proc_sync']),
                  (['Expression', "'?'"], ['proc_sync']), (['Expression', 'error', "'?'"], ['proc_sync'])],
 }
+# each text block of an XML model is parsed from a start token; the nonterminal behind the token is the one the corresponding section of the
+# textual format uses (Guard: T_GUARD Expression ';' / OldGuard: T_GUARD OldGuardList ';' ...), so a label means the same in both formats
+ROOT = [(['T_NEW', 'XTA'], ['done']), (['T_NEW_DECLARATION', 'Declarations'], []), (['T_NEW_LOCAL_DECL', 'ProcLocalDeclList'], []), (['T_NEW_INST', 'Declarations'], []), (['T_NEW_SYSTEM', 'XTA'], []),
+        (['T_NEW_PARAMETERS', 'ParameterList'], []), (['T_NEW_INVARIANT', 'Expression'], []), (['T_NEW_SELECT', 'SelectList'], []), (['T_NEW_GUARD', 'Expression'], ['proc_guard']), (['T_NEW_SYNC', 'SyncExpr'], []),
+        (['T_NEW_ASSIGN', 'ExprList'], ['proc_update']), (['T_PROBABILITY', 'Expression'], ['proc_prob']), (['T_OLD', 'OldXTA'], ['done']), (['T_OLD_DECLARATION', 'OldDeclaration'], []),
+        (['T_OLD_LOCAL_DECL', 'OldVarDeclList'], []), (['T_OLD_INST', 'Instantiations'], []), (['T_OLD_PARAMETERS', 'OldProcParamList'], []), (['T_OLD_INVARIANT', 'OldInvariant'], []),
+        (['T_OLD_GUARD', 'OldGuardList'], ['proc_guard']), (['T_OLD_ASSIGN', 'ExprList'], ['proc_update']), (['T_PROPERTY', 'PropertyList'], []), (['T_EXPRESSION', 'Expression'], []),
+        (['T_EXPRESSION_LIST', 'ExprList'], []), (['T_XTA_PROCESS', 'ProcDecl'], []), (['T_EXPONENTIAL_RATE', 'ExpRate'], []), (['T_MESSAGE', 'MessExpr'], []), (['T_UPDATE', 'ExprList'], ['proc_LSC_update']),
+        (['T_CONDITION', 'Expression'], ['proc_condition']), (['T_INSTANCE_LINE', 'InstanceLineExpression'], [])]
+START_TOKENS = {'S_XTA': ('T_NEW', 'T_OLD'), 'S_DECLARATION': ('T_NEW_DECLARATION', 'T_OLD_DECLARATION'), 'S_LOCAL_DECL': ('T_NEW_LOCAL_DECL', 'T_OLD_LOCAL_DECL'), 'S_INST': ('T_NEW_INST', 'T_OLD_INST'),
+                'S_SYSTEM': ('T_NEW_SYSTEM',) * 2, 'S_PARAMETERS': ('T_NEW_PARAMETERS', 'T_OLD_PARAMETERS'), 'S_INVARIANT': ('T_NEW_INVARIANT', 'T_OLD_INVARIANT'), 'S_EXPONENTIAL_RATE': ('T_EXPONENTIAL_RATE',) * 2,
+                'S_SELECT': ('T_NEW_SELECT',) * 2, 'S_GUARD': ('T_NEW_GUARD', 'T_OLD_GUARD'), 'S_SYNC': ('T_NEW_SYNC',) * 2, 'S_ASSIGN': ('T_NEW_ASSIGN', 'T_OLD_ASSIGN'), 'S_EXPRESSION': ('T_EXPRESSION',) * 2,
+                'S_EXPRESSION_LIST': ('T_EXPRESSION_LIST',) * 2, 'S_PROPERTY': ('T_PROPERTY',) * 2, 'S_XTA_PROCESS': ('T_XTA_PROCESS',) * 2, 'S_PROBABILITY': ('T_PROBABILITY',) * 2,
+                'S_INSTANCE_LINE': ('T_INSTANCE_LINE',) * 2, 'S_MESSAGE': ('T_MESSAGE',) * 2, 'S_UPDATE': ('T_UPDATE',) * 2, 'S_CONDITION': ('T_CONDITION',) * 2}
+
+
+def start_tokens():
+    """part -> (token when newxta, token otherwise), read from setStartToken() in src/parser.y"""
+    src = open(os.path.join(vlib.REPO, 'src', 'parser.y')).read()
+    m = re.search(r'static\s+void\s+setStartToken\s*\([^)]*\)\s*\{(.*?)\n\}', src, re.S)
+    if not m:
+        return None
+    out, part = {}, None
+    for cm in re.finditer(r'case\s+(S_\w+)\s*:|syntax_token\s*=\s*([^;]+);', m.group(1)):
+        if cm.group(1):
+            part = cm.group(1)
+        elif part:
+            e = re.sub(r'\s+', '', cm.group(2))
+            t = re.match(r'^\(?newxta\)?\?(\w+):(\w+)$', e)
+            out[part] = (t.group(1), t.group(2)) if t else ((e, e) if re.fullmatch(r'\w+', e) else ('?' + e, '?'))
+            part = None
+    return out
+
+
 TRANSITION_SECTIONS = ['Select', 'Guard', 'Sync', 'Assign', 'Probability']
 
 
@@ -66,6 +121,11 @@ def grammar_facts(run):
             want_src = '$1' if owner == 'Transition' else src_buffer
             if len(begins) != 1 or len(args) != 3 or args[2] != want_ctl or args[0] != want_src:
                 bad.append(dict(nonterminal=owner, arrow=arrow, found=begins))
+    if by.get('Uppaal') != ROOT:
+        bad.append(dict(nonterminal='Uppaal (start tokens and the nonterminal behind each)', expected=[x for x in ROOT if x not in (by.get('Uppaal') or [])], found=[x for x in (by.get('Uppaal') or []) if x not in ROOT]))
+    st = start_tokens()
+    if st != START_TOKENS:
+        bad.append(dict(nonterminal='setStartToken', differing={k: (START_TOKENS.get(k), (st or {}).get(k)) for k in set(START_TOKENS) | set(st or {}) if START_TOKENS.get(k) != (st or {}).get(k)}))
     if bad:
         run.tie_broken('parser.y no longer has the process-body structure XtaXml.v models', bad[:4])
     return len(GRAMMAR_FACTS) + 1
